@@ -134,6 +134,30 @@ inline int rc_main(int argc, char **argv, std::vector<std::unique_ptr<PropBase>>
         return 3;
     }
     bool all = true;
+    // regression tier: units started with VERIF_REGRESS=1 first re-run every saved reg-*.case of this property
+    if (envl("VERIF_REGRESS", 0) && !env("VERIF_REGRESSION_DIR").empty()) {
+        std::string dir = env("VERIF_REGRESSION_DIR");
+        std::string cmd = "ls " + dir + "/reg-*.case 2>/dev/null";
+        FILE *ls = popen(cmd.c_str(), "r");
+        char line[4096];
+        while (ls && fgets(line, sizeof line, ls)) {
+            std::string path(line); while (!path.empty() && (path.back() == '\n' || path.back() == ' ')) path.pop_back();
+            try {
+                std::string text = read_file(path);
+                CaseReader r(text);
+                std::string pname = r.w();
+                for (auto &p : props) if (p->name == pname) {
+                    crash_ctx().prop = pname; crash_ctx().encode = [text, pname] { return text.substr(text.find('\n') == std::string::npos ? 0 : text.find('\n') + 1); };
+                    Outcome o = p->replay(r);
+                    crash_ctx().encode = nullptr;
+                    VR.cls("regression.cases");
+                    if (!o.ok()) { VR.failures.push_back({o.sig, path, "regression case failed: " + o.msg}); all = false; }
+                }
+            } catch (std::exception const &e) { VR.failures.push_back({"regression:unreadable", path, e.what()}); all = false; }
+        }
+        if (ls) pclose(ls);
+        VR.flush();
+    }
     for (auto &p : props) {
         if (only && p->name != only) continue;
         bool r = p->run_random();
